@@ -145,7 +145,7 @@ Example C15_ex_history :
       match run bstep ex_history s0 with
       | Ok (s, rs) =>
           get_number 0 s = Ok (SInt 7%Z) /\ get_pair 1 s = Ok (0, 0) /\ get_list_len 2 s = Ok 1 /\
-          get_list_item 2 0 s = Ok (Some 1) /\ length (heap s) = 15 /\
+          get_list_item 2 0%Z s = Ok (Some 1) /\ length (heap s) = 15 /\
           nth_error rs 13 = Some (RAddr 9)
       | _ => False
       end
